@@ -279,12 +279,15 @@ class Gaussian(Prior):
         # underflows where the ratio does not; z*z, unlike z**2, gives inf
         # for python floats instead of raising OverflowError)
         z = (p - self.mu) / self.sd
-        return self._lnprob_normalization - z*z/2
+        lnprob = self._lnprob_normalization - z*z/2
+        # (nan counts as outside the support, as for the bounded priors)
+        return np.where(np.isnan(p), -np.inf, lnprob)[()]
         # Turns out scipy.stats is noticably slower than doing it ourselves
         # return stats.norm.logpdf(p, self.mu, self.sd)
 
     def prob(self, p):
-        return stats.norm.pdf(p, self.mu, self.sd)
+        prob = stats.norm.pdf(p, self.mu, self.sd)
+        return np.where(np.isnan(p), 0., prob)[()]
 
     @property
     def guess(self):
